@@ -107,3 +107,10 @@ Definition set_run (bits : nat) (os : list sop) : list (option bool) * (bdd * bd
   (runs bits (F, F) os, set_final bits os).
 Definition set_ref (os : list sop) : list (option bool) :=
   rruns ((fun _ => false), (fun _ => false)) os.
+
+(** the same over binary elements (sets up to 64 bits wide, elements up to 2^64-1) *)
+From Rsbdd Require Import Sets.BddSetN.
+Definition set_runN (bits : nat) (os : list sopN) : list (option bool) * (bdd * bdd) :=
+  (runsN bits (F, F) os, finalN bits os).
+Definition set_refN (os : list sopN) : list (option bool) :=
+  rrunsN ((fun _ => false), (fun _ => false)) os.
